@@ -53,10 +53,10 @@ func (b bs) MarshalJSON() ([]byte, error) {
 type itemKind int
 
 const (
-	itRaw      itemKind = iota // a script line run as is ("env ...")
-	itProbe                    // probe <id> <line>       -> argument vector
-	itGetenv                   // probeenv <id> names...  -> TestScript.Getenv
-	itChild                    // exec <self> envdump ; probeout <id> -> environment of an executed program
+	itRaw    itemKind = iota // a script line run as is ("env ...")
+	itProbe                  // probe <id> <line>       -> argument vector
+	itGetenv                 // probeenv <id> names...  -> TestScript.Getenv
+	itChild                  // exec <self> envdump ; probeout <id> -> environment of an executed program
 )
 
 type item struct {
@@ -130,7 +130,9 @@ func (sc *script) text() []byte {
 			b.Write(it.text)
 			b.WriteByte('\n')
 		case itProbe:
-			fmt.Fprintf(&b, "probe %d ", i)
+			// the command word is a word like any other, and it starts at column 0: it is spelled with and without
+			// quoted chunks, with an unquoted piece in front of, between and behind them
+			fmt.Fprintf(&b, "%s %d ", []string{"probe", "'probe'", "p'robe'", "pro'b'e", "'p'robe", "pr''obe"}[i%6], i)
 			b.Write(it.text)
 			b.WriteByte('\n')
 		case itGetenv:
@@ -141,8 +143,14 @@ func (sc *script) text() []byte {
 			}
 			b.WriteByte('\n')
 		case itChild:
-			fmt.Fprintf(&b, "exec %s envdump\nprobeout %d\n", quoteWord(selfPath), i)
-			n++
+			if i%2 == 1 {
+				// a program started in the background is an executed program too: same environment
+				fmt.Fprintf(&b, "exec %s envdump &\nwait\nprobeout %d\n", quoteWord(selfPath), i)
+				n += 2
+			} else {
+				fmt.Fprintf(&b, "exec %s envdump\nprobeout %d\n", quoteWord(selfPath), i)
+				n++
+			}
 		}
 	}
 	return b.Bytes()
